@@ -119,3 +119,13 @@ reg("C20", "other",
     "the pending polygon) for polygons and multipatches, and for the six CoordTrait impls over the four orderings of m against "
     "NO_DATA: dim() = n implies nth_or_panic(i) returns field i without panicking for i < n. The NaN case of PointZ violated the "
     "last clause and was repaired in /repo (ecfa6df). Not decided: round-trip equality of coordinate values.")
+reg("C02", "other",
+    "abstract layouts of the 13 record writers and of the header writer (E2) compared with the hand-transcribed ESRI layouts; "
+    "typestate invariants (E4) for contiguity",
+    "Independent oracle = spec/esri.json (shares nothing with the library). Decided for every type and every part/point count: "
+    "the header writer emits the 13 ESRI header fields with the right width, endianness and binding (100 bytes, version only from "
+    "Default); each of the 13 write_to layouts (primitive kinds, endianness, the field each value is copied from, repetitions "
+    "and the count field that governs them) equals the ESRI layout; part offsets are prefix sums from 0; patch kind codes are "
+    "0..5; record number = counter, content length per C18, running length += words + 4, type code = file type; records are "
+    "contiguous (typestate W1-W3). Not decided: that an independent decoder recovers the same doubles (byteorder's bit "
+    "semantics are trusted).", note=TRUST + "; spec/esri.json transcribed correctly from the whitepaper")
